@@ -139,15 +139,15 @@ func (p *pkgInfo) pos(n ast.Node) string {
 
 // primitives of the evaluator and the source text the Lean model (Model/SszSchema.lean) mirrors.
 var primitiveText = map[string]string{
-	"putByteList":   `func putByteList(h ssz.HashWalker, b []byte, limit int, field string) error { elemIndx := h.Index() byteLen := len(b) if byteLen > limit { return errors.Wrap(ssz.ErrIncorrectListSize, "put byte list", z.Str("field", field)) } h.AppendBytes32(b) h.MerkleizeWithMixin(elemIndx, uint64(byteLen), uint64(limit+31)/32) return nil }`,
-	"putK1SigList":  `func putK1SigList(h ssz.HashWalker, sig []byte, maxAmountSigs int, field string) error { if len(sig)%sszLenK1Sig != 0 { return errors.New("signature not a multiple of 65 bytes", z.Str("field", field), z.Int("length", len(sig))) } num := uint64(len(sig) / sszLenK1Sig) if num > uint64(maxAmountSigs) { return errors.Wrap(ssz.ErrIncorrectListSize, "put k1 sig list", z.Str("field", field)) } elemIndx := h.Index() for i := 0; i < len(sig); i += sszLenK1Sig { h.PutBytes(sig[i : i+sszLenK1Sig]) } h.MerkleizeWithMixin(elemIndx, num, uint64(maxAmountSigs)) return nil }`,
-	"putBytesN":     `func putBytesN(h ssz.HashWalker, b []byte, n int) error { if len(b) > n { return errors.New("bytes too long", z.Int("n", n), z.Int("l", len(b))) } h.PutBytes(leftPad(b, n)) return nil }`,
-	"putHexBytes20": `func putHexBytes20(h ssz.HashWalker, addr string) error { b, err := from0xHex(addr, addressLen) if err != nil { return err } h.PutBytes(leftPad(b, addressLen)) return nil }`,
-	"leftPad":       `func leftPad(b []byte, l int) []byte { for len(b) < l { b = append([]byte{0x00}, b...) } return b }`,
-	"to0xHex":       `func to0xHex(b []byte) string { if len(b) == 0 { return "" } return fmt.Sprintf("%#x", b) }`,
-	"from0xHex":     `func from0xHex(s string, length int) ([]byte, error) { if s == "" { return nil, nil } b, err := hex.DecodeString(strings.TrimPrefix(s, "0x")) if err != nil { return nil, errors.Wrap(err, "decode hex") } else if len(b) != length { return nil, errors.Wrap(err, "invalid hex length", z.Int("expect", length), z.Int("actual", len(b))) } return b, nil }`,
-	"isAnyVersion":  `func isAnyVersion(version string, versions ...string) bool { return slices.Contains(versions, version) }`,
-	"isV1x3":        `func isV1x3(version string) bool { return version == v1_3 }`,
+	"putByteList":                         `func putByteList(h ssz.HashWalker, b []byte, limit int, field string) error { elemIndx := h.Index() byteLen := len(b) if byteLen > limit { return errors.Wrap(ssz.ErrIncorrectListSize, "put byte list", z.Str("field", field)) } h.AppendBytes32(b) h.MerkleizeWithMixin(elemIndx, uint64(byteLen), uint64(limit+31)/32) return nil }`,
+	"putK1SigList":                        `func putK1SigList(h ssz.HashWalker, sig []byte, maxAmountSigs int, field string) error { if len(sig)%sszLenK1Sig != 0 { return errors.New("signature not a multiple of 65 bytes", z.Str("field", field), z.Int("length", len(sig))) } num := uint64(len(sig) / sszLenK1Sig) if num > uint64(maxAmountSigs) { return errors.Wrap(ssz.ErrIncorrectListSize, "put k1 sig list", z.Str("field", field)) } elemIndx := h.Index() for i := 0; i < len(sig); i += sszLenK1Sig { h.PutBytes(sig[i : i+sszLenK1Sig]) } h.MerkleizeWithMixin(elemIndx, num, uint64(maxAmountSigs)) return nil }`,
+	"putBytesN":                           `func putBytesN(h ssz.HashWalker, b []byte, n int) error { if len(b) > n { return errors.New("bytes too long", z.Int("n", n), z.Int("l", len(b))) } h.PutBytes(leftPad(b, n)) return nil }`,
+	"putHexBytes20":                       `func putHexBytes20(h ssz.HashWalker, addr string) error { b, err := from0xHex(addr, addressLen) if err != nil { return err } h.PutBytes(leftPad(b, addressLen)) return nil }`,
+	"leftPad":                             `func leftPad(b []byte, l int) []byte { for len(b) < l { b = append([]byte{0x00}, b...) } return b }`,
+	"to0xHex":                             `func to0xHex(b []byte) string { if len(b) == 0 { return "" } return fmt.Sprintf("%#x", b) }`,
+	"from0xHex":                           `func from0xHex(s string, length int) ([]byte, error) { if s == "" { return nil, nil } b, err := hex.DecodeString(strings.TrimPrefix(s, "0x")) if err != nil { return nil, errors.Wrap(err, "decode hex") } else if len(b) != length { return nil, errors.Wrap(err, "invalid hex length", z.Int("expect", length), z.Int("actual", len(b))) } return b, nil }`,
+	"isAnyVersion":                        `func isAnyVersion(version string, versions ...string) bool { return slices.Contains(versions, version) }`,
+	"isV1x3":                              `func isV1x3(version string) bool { return version == v1_3 }`,
 	"Definition.LegacyValidatorAddresses": `func (d Definition) LegacyValidatorAddresses() (ValidatorAddresses, error) { var resp ValidatorAddresses for i, vaddrs := range d.ValidatorAddresses { if i == 0 { resp = vaddrs } else if resp != vaddrs { return ValidatorAddresses{}, errors.New("multiple withdrawal or fee recipient addresses found") } } return resp, nil }`,
 }
 
@@ -284,7 +284,7 @@ const (
 	ctlContinue
 )
 
-func (it *interp) top() *frame { return it.frames[len(it.frames)-1] }
+func (it *interp) top() *frame  { return it.frames[len(it.frames)-1] }
 func (it *interp) emit(n *node) { it.top().items = append(it.top().items, n) }
 
 func (it *interp) bad(n ast.Node, f string, a ...any) {
